@@ -102,6 +102,66 @@ def _vary_forms(py: typing.Any, seed: int) -> typing.Optional[typing.Tuple[typin
     return (out,) if changed[0] else None
 
 
+def _spoil(spec: typing.Any, py: typing.Any, seed: int) -> typing.Optional[typing.Any]:
+    """A copy of the valid python value with ONE place made invalid (an array longer than its capacity or of the wrong fixed length, an
+    unknown structure field, a union with two variants or an unknown one, a text where a number belongs), chosen by `seed` among all
+    places of the value - so that a serialize() call fails somewhere in the middle of the work.  None when there is no such place."""
+    import copy
+
+    root = [copy.deepcopy(py)]
+    sites: typing.List[typing.Callable[[], None]] = []
+
+    def walk(sp: typing.Any, holder: typing.Any, key: typing.Any) -> None:
+        x = holder[key]
+        k = sp[0]
+        if k == "delim":
+            return walk(sp[1], holder, key)
+        if k == "struct":
+            if not isinstance(x, dict):
+                return
+            sites.append(lambda: x.__setitem__("no_such_field_", 0))
+            for n, t in sp[1]:
+                if n and n in x:
+                    walk(t, x, n)
+            return
+        if k == "union":
+            if not isinstance(x, dict) or len(x) != 1:
+                return
+            (name,) = x.keys()
+            others = [n for n, _ in sp[1] if n != name]
+            if others:
+                sites.append(lambda: x.__setitem__(others[0], 0))
+            sites.append(lambda: (x.clear(), x.__setitem__("no_such_variant_", 0)))
+            walk(dict((n, t) for n, t in sp[1])[name], x, name)
+            return
+        if k in ("fixed", "var"):
+            cap = sp[2]
+            if cap <= 300:
+                if isinstance(x, (bytes, bytearray)):
+                    sites.append(lambda: holder.__setitem__(key, bytes(x) + b"\x00" * (cap + 1 - len(x))))
+                elif isinstance(x, str):
+                    sites.append(lambda: holder.__setitem__(key, x + "a" * (cap + 1)))
+                elif isinstance(x, list):
+                    filler = copy.deepcopy(x[-1]) if x else 0
+                    sites.append(lambda: holder.__setitem__(key, x + [copy.deepcopy(filler) for _ in range(cap + 1 - len(x))]))
+            if k == "fixed" and isinstance(x, list) and len(x) >= 1:
+                sites.append(lambda: holder.__setitem__(key, x[:-1]))
+            if isinstance(x, list):
+                for i in range(len(x)):
+                    if i < 3 or i == len(x) - 1:
+                        walk(sp[1], x, i)
+            return
+        if k in ("uint", "int", "float", "bool", "byte"):
+            sites.append(lambda: holder.__setitem__(key, "text"))
+            sites.append(lambda: holder.__setitem__(key, None))
+
+    walk(spec, root, 0)
+    if not sites:
+        return None
+    sites[seed % len(sites)]()
+    return root[0]
+
+
 def length_in_bls(b: typing.Any, tree: typing.Any, nbits: int) -> typing.Optional[str]:
     """Is nbits an element of pydsdl's own bit length set `b`?  (exact when the set is small, else bounds + residues)"""
     small = rbls.expansion_tractable(tree, 3000, 50_000, 300_000)
@@ -142,6 +202,16 @@ def check_roundtrip(case: typing.Any, ctx: Ctx) -> Info:
     data, _ = guarded(pydsdl.serialize, t, py, with_delimiter_header=with_header, what="serialize")
     # the value is the caller's: serializing it (filling in omitted fields, clamping, normalising relaxed forms) leaves it as it was
     require(repr(py) == repr(py_before), "serialize-modifies-its-input", repr(py_before)[:400], repr(py)[:400], "type %s" % layout.type_string(spec)[:200])
+    # a call that fails half-way (one place of the value made invalid) must not leave anything behind: the valid value serialized after it
+    # gives the same bytes as before.  Nothing is asserted about the failing call itself - invalid values are outside the property.
+    if case.get("form", 0) % 3 != 1:
+        bad = _spoil(spec, py, case.get("form", 0) // 3)
+        if bad is not None:
+            try:
+                pydsdl.serialize(t, bad, with_delimiter_header=with_header)
+                ctx.extra["spoiled_accepted"] = ctx.extra.get("spoiled_accepted", 0) + 1
+            except Exception:  # pylint: disable=broad-except
+                ctx.extra["spoiled_rejected"] = ctx.extra.get("spoiled_rejected", 0) + 1
     again_same, _ = guarded(pydsdl.serialize, t, py, with_delimiter_header=with_header, what="serialize-again")
     require(again_same == data, "serialize-not-repeatable", data.hex(), again_same.hex() if isinstance(again_same, bytes) else again_same, "type %s value %r" % (layout.type_string(spec)[:200], py))
     # the documented alternative container types (tuples for arrays, bytearray / list of ints for byte strings) encode alike
